@@ -97,6 +97,70 @@ def replay(arg):
     return 1, mism
 
 
+_MGR = {}
+
+
+def replay_manager(arg):
+    """the same inputs through PerceptionEvaluationManager in the classification2d task: frame-level pairs and scores, and a two-frame scene
+    (the same frame added twice: pooled counts double, ratios stay)"""
+    import shutil
+    import tempfile
+
+    from perception_eval.common.dataset import FrameGroundTruth
+    from perception_eval.config import PerceptionEvaluationConfig
+    from perception_eval.evaluation.result.perception_frame_config import CriticalObjectFilterConfig, PerceptionPassFailConfig
+    from perception_eval.manager import PerceptionEvaluationManager
+
+    from ..build import vid
+
+    family, ests, gts, uuid_first, out = arg
+    if not ests or not gts:
+        return 0, []
+    rep = {"family": family, "ests": ests, "gts": gts, "uuid_first": uuid_first, "through": "PerceptionEvaluationManager(classification2d)"}
+    key = (family, uuid_first)
+    labels = ["green", "red", "unknown"] if family == "tlr" else ["car", "pedestrian", "unknown"]
+    try:
+        if key not in _MGR:
+            tmp = tempfile.mkdtemp(prefix="verif_cls_")
+            try:
+                ec = PerceptionEvaluationConfig([], ["cam_front", "cam_back", "cam_traffic_light"], tmp,
+                                                {"evaluation_task": "classification2d", "target_labels": labels, "label_prefix": "traffic_light" if family == "tlr" else "autoware",
+                                                 "merge_similar_labels": False, "uuid_matching_first": uuid_first})
+                _MGR[key] = PerceptionEvaluationManager(ec)
+            finally:
+                shutil.rmtree(tmp, ignore_errors=True)
+        mgr = _MGR[key]
+        mgr.frame_results.clear()
+        ec = mgr.evaluator_config
+        crit = CriticalObjectFilterConfig(ec, labels)
+        pfc = PerceptionPassFailConfig(ec, labels)
+        mism = []
+        outcomes = {frozenset(tuple(p) for p in o) for o in out["outcomes"]}
+        for k in range(2):
+            re_, rg = build(ests, family, 0.9), build(gts, family, 1.0)
+            fr = mgr.add_frame_result(1000 * (k + 1), FrameGroundTruth(unix_time=1000 * (k + 1), frame_name=str(k), objects=rg), re_, crit, pfc)
+            got = frozenset((vid(r.estimated_object), vid(r.ground_truth_object) if r.ground_truth_object is not None else 0) for r in fr.object_results)
+            if got not in outcomes:
+                mism.append(("manager-pairing", "frame %d: pairs %s not among the specification's outcomes" % (k, sorted(got)), rep))
+                return 1, mism
+            sc = [s_ for o, s_ in zip(out["outcomes"], out["scores_list"]) if frozenset(tuple(p) for p in o) == got][0]
+            a, p_, r, f = fr.metrics_score.classification_scores[0]._summarize()
+            for name, v in (("accuracy", a), ("precision", p_), ("recall", r), ("f1", f)):
+                if not ratio_eq(v, sc[name]):
+                    mism.append(("manager-frame-" + name, "frame %d: %s = %r, specification %s" % (k, name, v, sc[name]), rep))
+            pf = fr.pass_fail_result
+            if len(pf.tp_object_results) + len(pf.fp_object_results) != len(fr.object_results):
+                mism.append(("manager-results-not-tp-plus-fp", "frame %d: %d results, %d TP + %d FP" % (k, len(fr.object_results), len(pf.tp_object_results), len(pf.fp_object_results)), rep))
+        if len({frozenset((vid(r.estimated_object), vid(r.ground_truth_object) if r.ground_truth_object is not None else 0) for r in f_.object_results) for f_ in mgr.frame_results}) == 1:
+            a, p_, r, f = mgr.get_scene_result().classification_scores[0]._summarize()
+            for name, v in (("accuracy", a), ("precision", p_), ("recall", r), ("f1", f)):
+                if not ratio_eq(v, sc[name]):
+                    mism.append(("manager-scene-" + name, "two identical frames: scene %s = %r, specification %s" % (name, v, sc[name]), rep))
+        return 1, mism
+    except Exception as ex:
+        return 1, [("raised", "manager (classification2d) raised %r" % (ex,), rep)]
+
+
 def run(ctx: Ctx):
     consts = dict(Uuids='{"u1","u2","u3"}', Labels='{"green","red","unknown"}', Cams='{"cam_front","cam_back","cam_traffic_light"}',
                   MaxN="3", Sample="90" if ctx.quick else "450")
@@ -119,6 +183,14 @@ def run(ctx: Ctx):
             ctx.nontrivial_count += 1
         for clause, msg, rep in mism:
             ctx.violation(clause, msg, rep)
+    sub = items[:: 3 if ctx.quick else 1]
+    outs = pmap(replay_manager, sub)
+    for it, (n, mism) in zip(sub, outs):
+        ctx.traces += n
+        ctx.evaluations += n
+        for clause, msg, rep in mism:
+            ctx.violation(clause, msg, rep)
+    ctx.extra["inputs_through_the_manager_classification2d"] = sum(n for n, _ in outs)
     it = next(i for i in items if len(i[4]["outcomes"]) > 1)
     ctx.sample({"family": it[0], "ests": it[1], "gts": it[2], "uuid_first": it[3], "spec": it[4]})
     ctx.exhaustive = False
